@@ -6,7 +6,9 @@ spec/MeshFileBin.tla  Adjacency::Graph serialisation layout, truncated buffers
 harness/c11_meshfile.cpp (std + asan builds), lib/c11_meshtok.py (independent tokenizer for direction V)
 
 G  TLC generates documents / trees / graphs and every single structured mutation with its verdict; the harness
-   replays them into MeshFileReader / MeshFileWriter / PropertyMap / Graph (mutations under ASan+UBSan).
+   replays them into MeshFileReader / MeshFileWriter / PropertyMap / Graph (mutations under ASan+UBSan).  The documents hold every
+   chart kind the reader dispatches to (Circle, Bezier, Sphere, SurfaceMesh, Extrude of Circle / Bezier); the mutations include the
+   count violations of every counted block (one line more / less, declared count +-1, whole block missing / twice).
 V  every shipped mesh file is parsed, written, re-parsed, re-written (second write == first write, structure
    equal) and the written text is compared with the original by an independent tokenizer; structured
    count/dim/index mutations of the shipped files must be rejected; seeded byte-level mutations are judged by Total.
@@ -51,8 +53,10 @@ def mesh_cfg(fam, dim, cells, psets, ptn, indents, muts, kinds=(0,)):
 
 def chart_kinds(dim):
     """chart kinds of spec/MeshFile.tla beyond the default 0 (Circle / Sphere): 2D Bezier open/closed; 3D Extrude of a
-    Circle / Bezier with generic angles, both gimbal-lock pitches, explicit zero vectors, identity rotation"""
-    return (1, 2) if dim == 2 else (1, 2, 3, 4, 5)
+    Circle / Bezier with generic angles, both gimbal-lock pitches, explicit zero vectors, identity rotation (1..5) and
+    SurfaceMesh triangulations (6: closed tetrahedron surface, 7: open strip with an unused vertex) -- with these every
+    chart parser the reader can dispatch to (Circle, Bezier | Sphere, SurfaceMesh, Extrude) occurs in the documents"""
+    return (1, 2) if dim == 2 else (1, 2, 3, 4, 5, 6, 7)
 
 
 def tlc_jobs(tier):
@@ -389,8 +393,11 @@ def run(chk):
     files = shipped(chk.tier)
     fcases = file_cases(files)
     scases = smut_cases(files, 150 if thorough else 14, rng)
+    # generated bases of the byte-level part: parent topology / two parts, and one document per chart kind (Bezier open/closed,
+    # Extrude of Circle / Bezier, both SurfaceMesh triangulations)
     fz_docs = ([docs[k] for k in sorted(docs) if k.endswith("-2-i-p-k0") or k.endswith("BC-2-f-e-k0")][:8] +
-               [docs[k] for k in sorted(docs) if "-B-0-i-e-k" in k and not k.endswith("k0")][:6])
+               [docs[k] for k in sorted(docs) if "-B-0-i-e-k" in k and not k.endswith("k0")
+                and (k.startswith("hypercube-2") or k[-2:] in ("k1", "k3", "k6", "k7"))])
     zcases = fuzz_cases(files, fz_docs, 150000 if thorough else 10000, rng)
 
     stats = {}
@@ -437,9 +444,15 @@ def run(chk):
                 "topology and 2 attributes / duplicated vertex) x {0,1,2} partitions x indentation x topology=parent variant, plus documents whose "
                 "atlas holds every other chart kind (2D: open parameterised / closed negatively oriented Bezier spline; 3D: Extrude of a Circle / "
                 "Bezier with origin, offset and yaw-pitch-roll angles: generic, both gimbal-lock pitches +-1/4 with non-zero yaw and roll, explicit "
-                "zero vectors, identity) -- the written text must be the canonical form of the rotation the angles denote; mutations = truncation after "
-                "every line, every markup line replaced by 9 degenerate markups (</>, < / >, <>, <//>, </Name/>, <Name//> ...), delete/duplicate every counted line, delete every open/close line, +-1 on every declared count, size arity, every dim "
-                "attribute to every other value, mesh type strings, every vertex/element/mapping index to bound and -1, unknown markup / stray "
+                "zero vectors, identity -- the written text must be the canonical form of the rotation the angles denote; SurfaceMesh "
+                "triangulations: closed tetrahedron surface, open strip with an unused vertex), so that every chart parser of the reader occurs; "
+                "mutations = truncation after "
+                "every line, every markup line replaced by 9 degenerate markups (</>, < / >, <>, <//>, </Name/>, <Name//> ...), COUNT VIOLATIONS of every counted block of every parser (mesh Vertices / Topology per dimension, "
+                "part Mapping per dimension / Topology / Attribute, Bezier Points / Params, SurfaceMesh Vertices / Triangles, partition Patch): every "
+                "content line deleted (one less than declared) and given twice (one more), +-1 on every declared count (size, verts, trias; "
+                "non-numeric / negative / empty verts and trias), every token of a line removed / added, the whole block removed and given twice; "
+                "delete every open/close line, size arity, every dim "
+                "attribute to every other value, mesh type strings, every vertex/element/mapping/triangle index to bound and -1, unknown markup / stray "
                 "terminator / stray content at every position, every attribute removed, unknown attribute, closed markup, token count / non-number / "
                 "trailing garbage for every token (quick: all documents round-trip, mutations of 5 rich documents per shape); likewise every "
                 "PropertyMap tree / line mutation of spec/MeshFileIni.tla and every graph / truncation of spec/MeshFileBin.tla.  V: shipped mesh files "
@@ -455,7 +468,10 @@ def run(chk):
         "a declared count is an allocation request: std::bad_alloc / std::length_error / a refused allocation (sanitizer max_allocation_size_mb=1024, "
         "RLIMIT_AS 6 GB) is classified as `resource` and accepted as a rejection in the byte-level part (Total), not in the structured part",
         "termination by a FEAT assertion message (XASSERT) counts as a report (DESIGN 3.3) in the byte-level part and for truncated graph buffers",
-        "Permutation has no serialisation API in the pinned tree; SurfaceMesh charts are covered only through the shipped files",
+        "Permutation has no serialisation API in the pinned tree; CGALSurfaceMesh charts (third-party CGAL, created from an .off file by the "
+        "application, no mesh file markup) are not covered",
+        "every structured mutation (mesh file, PropertyMap, graph) and every byte-level mutant is replayed in the ASan+UBSan build: a sanitizer "
+        "report is an outcome no verdict of the spec allows, whatever exception follows it",
         "Extrude angles of generated documents are multiples of 1/8 revolution with |yaw|,|roll| < 1/2, |pitch| <= 1/4 and roll -+ yaw != 0 at gimbal "
         "lock, so that the canonical yaw-pitch-roll triple printed with 6 digits is exact",
     ]
